@@ -46,6 +46,7 @@ NumIn(d, lvl) ==
                   \cup {Tok("in", "thr", i) : i \in ((0 - d.nthr)..d.nthr) \ {0}}
                   \cup (IF d.dom = "linespacing" THEN {Tok("in", "pts", i) : i \in 1..4} ELSE {})
     [] lvl = 2 -> {Tok("in", "typ", 1), Tok("in", "mid", 1)}
+                  \cup (IF d.ntyp > 1 THEN {Tok("in", "typ", d.ntyp)} ELSE {})     \* the last typical value is the reset-like one (0, default)
                   \cup (IF d.hasHi /\ d.edgeDoc THEN {Tok("in", "hi", 0)} ELSE {})
                   \cup (IF d.dom = "linespacing" THEN {Tok("in", "pts", 1)} ELSE {})
     [] OTHER    -> {Tok("in", "typ", 1)}
